@@ -74,10 +74,10 @@ CHECKS["C03"] = {
 CHECKS["C12"] = {
     "level": "fault_enumeration",
     "technique": "rapid-generated base scenarios; a connection reset (preceded by a partial delivery cutting a record in a chosen offset class) or a session Close (optionally racing with other calls) is injected at EVERY operation position of each base scenario; teardown oracle at quiescence (synctest bubble)",
-    "level_text": "For each generated base scenario the fault is enumerated over every operation boundary and, per fault spec, over connection x offset class (record boundary, TLS header, frame header, payload, tag); after each injection the interpreter drains the network and checks prefix-only delivery, that every parked Read/Write/Accept/Close returned, that OpenStream is refused, that every connection end was closed, and (before the fault) that the active-stream counter equals the model count at every quiescent step; inactivity-timer phases are explored on the virtual clock.",
+    "level_text": "For each generated base scenario the fault is enumerated over every operation boundary and, per fault spec, over connection x offset class (record boundary, TLS header, frame header, payload, tag); after each injection the interpreter drains the network and checks prefix-only delivery, that every parked Read/Write/Accept/Close returned, that OpenStream is refused, that every connection end was closed, and (before the fault) that the active-stream counter equals the model count at every quiescent step; inactivity-timer phases are explored on the virtual clock. A bubble that ends up permanently stuck with a goroutine queued on a lock (which stops the virtual clock) is recognised by a real-time watchdog from two identical goroutine dumps and judged by the same post-fault rules evaluated on the harness' bookkeeping (violation only if a fault or session close had been injected and a blocked call has not returned or a connection was not closed); otherwise exit 2. At layer 3 (real client and server code over the test network) connection attempts fail in six ways during session set-up, including a reply that fails only after sibling connections have joined and a sibling whose reply is delayed past that failure; the established session must either work on six probe streams or be closed.",
     "level_note": "Schedules inside a step are the Go runtime's; under back pressure only one writer per stream is generated (a parked writer holds the stream mutex, which synctest cannot treat as durably blocked).",
     "rule": "base scenario: rapid-drawn config (ordered/unordered, 1..8 conns or singleplex, optional bounded buffers) and <=30 ops; faults: 1..3 specs x every position 0..len(ops). Non-trivial = fault strictly inside a record, or frames had arrived out of order before it, or a goroutine was parked in Read/Write at the fault; distinct = distinct scenarios (each standing for (len(ops)+1) x specs executions, counted in evaluations).",
-    "assumptions": ["a reset is seen by both ends; EOF is seen after in-flight bytes were delivered (TCP-like)"],
+    "assumptions": ["a reset is seen by both ends; EOF is seen after in-flight bytes were delivered (TCP-like)", "the code under test does not complete a teardown through a timer while other goroutines queue on its locks (wedge verdicts)"],
     "jobs": [
         {"pkg": MUX, "run": "^TestVerif_C12_Faults$", "checks": {"quick": 500, "thorough": 40000}, "shards": {"thorough": 16}, "timeout": {"quick": 300}},
         {"pkg": SERVER, "run": "^TestVerif_C12_FullRigFaults$", "checks": {"quick": 80, "thorough": 6000}, "shards": {"thorough": 16}, "timeout": {"quick": 600}},
@@ -90,7 +90,7 @@ CHECKS["C12"] = {
 CHECKS["C13"] = {
     "level": "exploration",
     "technique": "rapid-generated Write/ReadFrom/Close/reset sequences (synctest bubble) plus generated high-contention workloads with real goroutines; oracle = wire tap decoded by the independent reference codec (uniqueness, gap-freedom, write order, closing frame position); thorough tier repeats the stress under -race",
-    "level_text": "Every message the sender put on the wire is decoded with the session key by the reference codec; per (direction, stream) the numbers must be pairwise distinct, 0..n-1 when no send failed, payloads in number order must reproduce each writer's bytes with every Write's frames contiguous, and the closing frame must be numbered after all writes completed before Close. Interleavings are explored by sequential generated histories and by 2..16 goroutines hammering one stream on all cores.",
+    "level_text": "Every message the sender put on the wire is decoded with the session key by the reference codec; per (direction, stream) the numbers must be pairwise distinct, 0..n-1 when no send failed, payloads in number order must reproduce each writer's bytes with every Write's frames contiguous, and the closing frame must be numbered after all writes completed before Close. Interleavings are explored by sequential generated histories and by 2..16 goroutines (Write, ReadFrom, Close) hammering one stream of an ordered or unordered session on all cores.",
     "level_note": "Concurrent schedules are sampled by contention (plus the race detector in the thorough tier), not enumerated; a race window that needs a specific nanosecond interleaving may be missed.",
     "rule": "Scenarios: rapid-drawn <=50 ops (write incl. multi-frame, readfrom chunk scripts, close, deliver, reset) over 1..4 streams; non-trivial = >=3 frames on the wire. Stress: 2..16 concurrent writers (Write and ReadFrom) x 20..300 writes each on one stream, optional racing Close, 1..16 concurrent OpenStream; non-trivial = >=2 goroutines on one stream. distinct = distinct scenarios.",
     "assumptions": ["reference codec is faithful", "sink connections accept every write"],
@@ -105,7 +105,7 @@ CHECKS["C13"] = {
 CHECKS["C14"] = {
     "level": "exploration",
     "technique": "rapid-generated datagram write/deliver/read(buffer size)/close sequences on a real unordered Session pair over a test-owned network (synctest bubble); multiset reference model fed from the decoded wire tap",
-    "level_text": "Each read must return exactly one whole datagram that arrived on that stream and was not read before; short-buffer errors are only allowed (and required to leave the datagram intact) when a waiting datagram is larger than the buffer; accepted datagrams appear on the wire as exactly one frame, refused ones never; after the final drain every datagram of a still-open stream has been read exactly once.",
+    "level_text": "Each read must return exactly one whole datagram that arrived on that stream and was not read before; short-buffer errors are only allowed (and required to leave the datagram intact) when a waiting datagram is larger than the buffer; accepted datagrams appear on the wire as exactly one frame, refused ones never; after the final drain every datagram of a still-open stream has been read exactly once. Datagrams enter through Write and through ReadFrom from a message-oriented source (the relay path), sizes 1..max with emphasis on the last 20 bytes below the maximum.",
     "level_note": "Arrival order across connections is serialised by the interpreter (one connection delivered at a time); no FIFO order between datagrams is demanded, only the multiset.",
     "rule": "rapid draws unordered config (method, 1..8 conns or singleplex) and <=60 ops over 1..4 streams: datagram sizes 1..max and max+1,max+2,2*max; read buffers = size-1/size/size+1 of datagrams in flight or huge; closes. Non-trivial = a short-buffer read occurred, or >=2 streams shared a connection, or a frame overtook a lower one across connections; distinct = distinct scenarios.",
     "assumptions": ["network delivers each record exactly once"],
@@ -118,7 +118,7 @@ CHECKS["C14"] = {
 CHECKS["C19"] = {
     "level": "exploration",
     "technique": "rapid-generated traffic patterns over 1..3 sessions x 1..4 connections x 1..4 streams of one limited user (valve obtained through userPanel.GetUser / ActiveUser.GetSession), free-running on the synctest virtual clock; every interval between two wire events is checked against the token-bucket bound in O(n)",
-    "level_text": "Time is virtual, so every send/receive event has an exact timestamp; for every pair of events (a,b) the bytes in [a,b] must be <= 1.01*rate*(b-a) + one second of burst + one message, across all sessions and connections of the user; backlogged senders must reach >= 0.99*rate*T minus burst/in-flight terms.",
+    "level_text": "Time is virtual, so every send/receive event has an exact timestamp; for every pair of events (a,b) the bytes in [a,b] must be <= 1.01*rate*(b-a) + one second of burst + one message, across all sessions and connections of the user - sessions admitted one after the other or simultaneously by separate goroutines (GetUser + GetSession each, as the dispatcher does) while the user is not active yet; 30 % of the cases are deep backlogs at 1-20 kB/s with 16+ queued senders and frames worth many seconds of allowance; backlogged senders must reach >= 0.99*rate*T minus burst/in-flight terms.",
     "level_note": "Upload direction is measured where data becomes readable on the server-side streams (payload bytes, after the limiter); download direction at the server's connection writes (the bytes the limiter counted). One writer per stream and direction.",
     "rule": "rapid draws rates from 1 kB/s..10 MB/s, topology, 5..60 virtual seconds and 1..8 writers (size patterns 37 B..16132 B, backlogged or bursty with pauses). Non-trivial = connections of >=2 sessions sent within the same virtual second; distinct = distinct scenarios.",
     "assumptions": ["juju/ratelimit runs on the bubble's virtual clock (time.Now/time.Sleep)", "the bound includes one maximal message because a wire write is atomic"],
@@ -158,7 +158,7 @@ CHECKS["C20"] = {
 CHECKS["C18"] = {
     "level": "exploration",
     "technique": "model-based testing: rapid-generated admin-API operation sequences (POST with any subset of fields and extreme values, malformed/mismatching requests, GET, list, DELETE, close/reopen, owner connects, usage upload) against a real bolt-backed manager; in-memory reference map compared through GET and list after every step",
-    "level_text": "After every operation each of the 4 UIDs is read back through GET and through the listing and compared field by field with the reference map (unset fields read as 0/null, rejected requests change nothing, deleted users are gone, state survives reopen); connect (userPanel.GetUser + GetSession) and usage upload (Manager.UploadStatus and userPanel.commitUpdate) are executed exactly as the server's goroutines call them, and a panic in Cloak code is a violation.",
+    "level_text": "After every operation each of the 4 UIDs is read back through GET and through the listing and compared field by field with the reference map (unset fields read as 0/null, rejected requests - UID mismatch, syntax errors, bad URL, empty body, and nine kinds of well-formed but ill-typed values - change nothing, deleted users are gone, state survives reopen); connect (userPanel.GetUser + GetSession) and usage upload (Manager.UploadStatus and userPanel.commitUpdate) are executed exactly as the server's goroutines call them, and a panic in Cloak code is a violation.",
     "level_note": "Crash points inside a bolt transaction are not injected (bolt's own durability is trusted); the API is driven through APIRouter.ServeHTTP rather than through a tunnelled HTTP connection (that path is exercised in C07's admin-gate check).",
     "rule": "rapid draws <=14 ops over 4 UIDs; values from {0,1,-1,2,100,2^31,-2^31,2^63-1,-2^63,now+-1,2^40} and [-1000,100000]; non-trivial = the sequence contains a partial update, a rejected request or a reopen; distinct = distinct scenarios.",
     "assumptions": ["bbolt commits are atomic and durable"],
@@ -186,7 +186,7 @@ CHECKS["C05"] = {
 CHECKS["C06"] = {
     "level": "exploration",
     "technique": "rapid-generated client configurations; one real handshake per case (client Transport.Handshake <-> server dispatchConnection, direct and through a TLS-terminating CDN shim) in a synctest bubble; oracle = independent re-authentication of the tapped first packet + key equality",
-    "level_text": "For each generated (UID, proxy method 1..12 bytes, encryption method, session id incl. 0/2^31/2^32-1, ordered/unordered, browser signature, transport, server name incl. 'random', client clock offset inside the window) the client's returned key must equal the key of the session the server filed under exactly that UID and session id, and an independent server state must recover exactly the configured identity fields from the tapped first packet.",
+    "level_text": "For each generated (UID, proxy method 1..12 bytes, encryption method, session id incl. 0/2^31/2^32-1, ordered/unordered, browser signature, transport, server name incl. 'random', client clock offset inside the window) the client's returned key must equal the key of the session the server filed under exactly that UID and session id, and an independent server state must recover exactly the configured identity fields from the tapped first packet. A case opens 1, 2, 3 or 6 connections of the same session at the same time (bypass user, or database user whose authorisation query yields the processor until a second caller is inside): all must be given one key, the server must keep one session.",
     "level_note": "Clock offsets are generated with |offset| <= 178.999 s so that the truncation of the timestamp to whole seconds never reaches the window edge (edges belong to C07). The CDN is emulated by a crypto/tls terminator with a self-signed certificate.",
     "rule": "rapid draws the configuration tuple; every case is a full handshake (non-trivial); distinct = distinct (browser, transport, enc, flag, sid class, name class, method length) tuples.",
     "assumptions": ["utls builds ClientHellos as the real client does", "crypto/tls and gorilla/websocket are correct"],
@@ -226,7 +226,7 @@ CHECKS["C07"] = {
     "level": "exploration",
     "exhaustive_claim": True,
     "technique": "exhaustive single-bit flips of four genuine first packets (three browser ClientHellos + WebSocket GET) and rapid-generated multi-byte edits/truncations/extensions against AuthFirstPacket on a fresh replay cache (oracle: accept => identity fields, sealed block and ephemeral key equal the genuine ones, checked with an independent parser); exhaustive clock-offset sweep around both window edges; rapid-generated dispatch outcomes (user class x proxy method x key x transport x clock) and admin-gate cases on a real bolt-backed server in a synctest bubble",
-    "level_text": "Decides 'accept implies intact and timely' over every bit of real first packets, the strict two-sided 180 s window at 1 s resolution plus sub-second edges, and the observable outcome of dispatchConnection (handshake reply vs. relay to the redirect target) for bypass/admin/database users with good, exhausted, expired, deleted or unknown records, unknown proxy methods, wrong server key and both transports; the admin API must answer only for admin UID with session id 0.",
+    "level_text": "Decides 'accept implies intact and timely' over every bit of real first packets, the strict two-sided 180 s window at 1 s resolution plus sub-second edges, and the observable outcome of dispatchConnection (handshake reply vs. relay to the redirect target) for bypass/admin/database users with good, exhausted, expired, deleted or unknown records, unknown proxy methods, wrong server key and both transports; the admin API must answer only for admin UID with session id 0. 168 first packets forged without the server's public key (small-order / non-canonical ephemeral keys 0, 1, order-8 points, p-1, p, p+1, with and without bit 255; identity block sealed under the secret a permissive X25519 would yield; TLS and WebSocket carriers) must all be rejected; genuine packets with extreme client clocks (2^31 .. 2^62, unit confusions, +-293 years) are decided with integer arithmetic.",
     "level_note": "Flips outside the authenticated fields (server name, cipher list, ...) may legitimately still authenticate, so 'every flip is rejected' is deliberately not asserted. Keys and nonces are sampled.",
     "rule": "Flips: every bit of every byte of 4 base packets; distinct non-trivial = byte positions. Edits: rapid-drawn xor masks at <=8 positions, truncate/extend by 1..300, sealed-block swap between packets; non-trivial = the mutant still parses as a first packet. Window: offsets -185..185 s step 1 s and edge+-{0,1,500,999 ms} x server sub-second {0,1 ns,0.5 s,0.999999999 s}, both transports; non-trivial = within 2 s of an edge. Outcome/AdminGate: rapid-drawn tuples; distinct = distinct tuples.",
     "assumptions": ["tlsref.go parses ClientHellos correctly", "AES-GCM and X25519 are correct"],
@@ -256,7 +256,7 @@ CHECKS["C09"] = {
 CHECKS["C15"] = {
     "level": "exploration",
     "technique": "rapid-generated histories of steps in which up to 24 real client handshakes for 1..4 (UID, session id) pairs are released simultaneously against dispatchConnection (synctest bubble), interleaved with session closures and credit/expiry/cap edits through the admin API (bolt-backed manager) or an in-memory manager; reference model of live sessions and caps",
-    "level_text": "After every step the keys handed to the clients are compared per (UID, session id) pair and with the server's session objects, the number of sessions of each limited user is compared with its cap, distinct pairs must map to distinct session objects, new sessions of exhausted/expired users must be refused and every connection of a pair that got a session must have joined it; a Go runtime fault (concurrent map access) in Cloak code is a violation.",
+    "level_text": "After every step the keys handed to the clients are compared per (UID, session id) pair and with the server's session objects, the number of sessions of each limited user is compared with its cap, distinct pairs must map to distinct session objects, new sessions of exhausted/expired users must be refused and every connection of a pair that got a session must have joined it; a Go runtime fault (concurrent map access) in Cloak code is a violation. 40 % of the scenarios start with the shape 'user has a live session, its cap/credit/expiry is edited through the admin API (values incl. -1, -2^62, -2^63), it asks for another session'; half of all scenarios run on the real bolt user manager and admin API router.",
     "level_note": "Simultaneous handshakes run as parallel goroutines inside one quiescence step (their interleaving is the Go runtime's); closing a user's last session concurrently with admissions is C17's subject and is not generated here.",
     "rule": "rapid draws 1..3 users (bypass or limited with cap 0..3, bolt or in-memory manager) and <=8 steps: connect (1..24 attempts over 1..4 pairs), close (not the last session), edit (cap/credit/expiry); non-trivial = >=2 handshakes for the same pair in one step, or new sessions requested beyond the cap; distinct = distinct scenarios.",
     "assumptions": ["virtual time does not advance between steps (no inactivity closures)"],
@@ -283,7 +283,7 @@ CHECKS["C17"] = {
 CHECKS["C16"] = {
     "level": "exploration",
     "technique": "rapid-generated histories (sessions of several limited users, traffic with generated echo ratios, usage collection/commit separately, together and two rounds at once, session closures incl. the last, top-ups, exhaustion, expiry, deletion through the admin API on a bolt-backed or in-memory manager) on real client sessions against dispatchConnection in a synctest bubble; oracle = stored credit vs. bytes counted by the network tap",
-    "level_text": "The tap on every client<->server connection gives, per user and direction, the exact number of application-data bytes carried after the handshake. At every quiescent step the credit deducted so far must not exceed that volume (never charged twice, never for another user or direction) and must not be negative; after a completed usage upload with traffic stopped and the user continuously active it must equal it in both directions, also after a second upload; users whose credit is <= 0, who expired or were deleted must have all sessions closed after the upload.",
+    "level_text": "The tap on every client<->server connection gives, per user and direction, the exact number of application-data bytes carried after the handshake. At every quiescent step the credit deducted so far must not exceed that volume (never charged twice, never for another user or direction) and must not be negative; after a completed usage upload with traffic stopped and the user continuously active it must equal it in both directions, also after a second upload; users whose credit is <= 0, who expired or were deleted must have all sessions closed after the upload. Sessions are closed by the client, by the server (proxy target unreachable) and by terminations; exactness is not demanded across a termination of the user (the statement limits it to users that stay active).",
     "level_note": "Absolute credit writes (top-up, exhaustion) are applied right after a flush of pending usage so that the additive bookkeeping formula is well defined; schedules inside a step are the Go runtime's.",
     "rule": "rapid draws 1..3 users, bolt or in-memory manager, 3..20 ops; traffic 1..70001 bytes with echo fraction 0, 30/255, 128/255 or 1; non-trivial = a collection and a commit (two upload rounds) overlapped in one step; distinct = distinct scenarios.",
     "assumptions": ["the tap sees every byte written to the client<->server connections"],
